@@ -96,3 +96,13 @@ claim("C17",
       "exhaustive enumeration of LCD switch-off points x pointer placements x short pointer-moving programs on the real CPU+PPU+OAM, differential against plain-memory OAM driven by the reference CPU",
       "OAM is filled by DMA with 20 distinct rows; at every cycle 0-113 of lines 0, 1, 143, 144 and 153 the LCD is switched off (hence in every mode and at every point of mode 2), or switched off-on-off, or left on outside mode 2; from a snapshot at that point every program of length 1 (thorough 2; length 2/3 on line 1) over 23 instructions that move or dereference BC/DE/HL/SP is run with every pointer in {FDFF,FE00,FE08,FE50,FE98,FE9F,FEA0,FEFF,FF00}; afterwards OAM must equal plain memory updated only by the reference CPU's writes into FE00-FE9F.",
       "With the LCD on, runs that touch mode 2 are not judged. Programs are straight-line; DMA is covered by C16.")
+
+claim("C18",
+      "exhaustive enumeration of sound-register writes x values x power states, and depth-bounded write/power/time sequences, on the real APU in lock-step with a reference register/power model",
+      "(a) every register NR10-NR51 x all 256 values x {powered on, powered off, written while off then powered on}, each preceded by the complementary value, with all 20 registers, NR52 and three wave-RAM bytes read back after each write (last written value OR the DMG mask while on, masks while off, writes ignored while off except NR52 and the length registers, wave RAM preserved); (b) every sequence of up to 3 (thorough 4) events over 188 register/wave-RAM writes (8 values, no trigger bits), NR52<-00, NR52<-80, 1 cycle and 4,096 cycles, from power-on and from a powered-off start, with the full read-back after every event and NR52 after every machine cycle.",
+      "Trusted: ref/apu.go, ref/addrmap.go masks (as listed in the statement), the audio snapshot hook. Start-up register values are not asserted (the statement does not fix them).")
+
+claim("C19",
+      "exhaustive depth-bounded enumeration of length/DAC/trigger/power/time event sequences per channel on the real APU, NR52 compared with a reference length/status model after every machine cycle",
+      "For each of the four channels every sequence of up to 4 (thorough 6) events over {4 length loads, DAC on/off, NRx4 in {00,40,80,C0}, NR10 in {00,11} with frequency 7FF for channel 1, NR52 off/on, 1 cycle, to one cycle before the next 512 Hz step, 2 cycles, 2,048 cycles} (at most 3 writes between time advances) is executed after a power cycle; NR52 is compared with the reference (status on only by trigger with DAC on and no sweep overflow; off by DAC off, power off, sweep overflow, length expiry; extra length clock when enabling or triggering in the first half of a frame-sequencer period) after every event and every machine cycle. Complete expiry runs cover (channel, length data, first/second half, enable at/after trigger, skew) and re-triggers with the counter at 0.",
+      "Frame-sequencer step times are taken from the implementation (phase convention) and checked to be exactly 2,048 cycles apart. Don't-cares are listed in the evidence assumptions.")
